@@ -795,6 +795,14 @@ func (fc *FnCtx) transCall(env *Env, e *CCall) (Val, types.Type) {
 			a, at := argT(0)
 			b, _ := argT(1)
 			return tb.App("s_cat", "Str", a, b), at
+		case "allocated":
+			// allocated(p): p points into an object that has been allocated (so a later `new` differs from it)
+			x, _ := argT(0)
+			if x.Sort != "Ref" {
+				fc.tfail("allocated needs a pointer or map")
+			}
+			al := fc.heapGet(env.st, "alloc", ArraySort("Ref", "Bool"))
+			return tb.Select(al, fc.objBase(x)), boolT
 		case "arrayOf":
 			// arrayOf(s): the backing array of a slice (nil for the nil slice); for aliasing facts
 			x, _ := argT(0)
